@@ -21,8 +21,10 @@ fn words_i(v: i128) -> (bool, [Word; 128 / WB]) {
     (v < 0, a)
 }
 
-/// the residue in [0, m) of the small signed value v (|v| < m assumed by construction)
+/// the residue in [0, m) of the small signed value v (|v| < m by construction when m has several words)
 fn expect<const NM: usize>(v: i128, m: &[Word; NM]) -> [Word; 4] {
+    // a one-word modulus can be smaller than |v| (pow): reduce with the primitive remainder first
+    let v = if NM == 1 { v.rem_euclid(m[0] as i128) } else { v };
     let (neg, a) = words_i(v);
     let mut out = [0 as Word; 4];
     if !neg || v == 0 {
